@@ -1,4 +1,4 @@
 CONSTANTS MaxEntries = 2
 SPECIFICATION Spec
-INVARIANTS CleanupExact Emit
+INVARIANTS CleanupExact SecondScanKeeps Emit
 CHECK_DEADLOCK FALSE
